@@ -790,7 +790,7 @@ func (m *Model) evalPlugin(s *Step) {
 			done(Dead)
 			return
 		}
-		enabled = ev == true
+		enabled = truthy(ev)
 	}
 	m.produce(id, "enabling", "resolved", map[string]any{"enabled": enabled})
 	if !enabled {
@@ -875,7 +875,7 @@ func (m *Model) evalForeach(s *Step) {
 			done(Dead)
 			return
 		}
-		enabled = ev == true
+		enabled = truthy(ev)
 	}
 	m.produce(id, "enabling", "resolved", map[string]any{"enabled": enabled})
 	if !enabled {
@@ -948,6 +948,22 @@ func (m *Model) evalForeach(s *Step) {
 		m.produce(id, "failed", "error", map[string]any{"data": okData, "errors": errs})
 	}
 	done(Dead)
+}
+
+// truthy interprets a value the way the SDK's bool schema unserialises it (literal spellings).
+func truthy(v any) bool {
+	switch x := v.(type) {
+	case bool:
+		return x
+	case string:
+		switch strings.ToLower(x) {
+		case "1", "yes", "y", "on", "true", "enable", "enabled":
+			return true
+		}
+	case int64:
+		return x == 1
+	}
+	return false
 }
 
 func onlyProducible(m *Model, id string) bool {
